@@ -285,7 +285,16 @@ fn c16facts(repo: &Path) -> Result<String, String> {
         ("capacity", "capacity", "capacity"),
         ("is_empty", "is_empty", "isEmpty"),
     ] {
-        let b = find::func(&f, m, Some("ErasedList"))?;
+        let b = match find::func(&f, m, Some("ErasedList")) {
+            Ok(b) => b,
+            // the pointer-returning `ErasedList::get` may be absent (nothing
+            // hands an element pointer out of the lock then)
+            Err(e) if m == "get" && e.contains("not found") => {
+                notes.push("ErasedList::get: absent (no method returns an element pointer)".into());
+                continue;
+            }
+            Err(e) => return Err(e),
+        };
         let t = trace(&b.block);
         let s = single_section(&format!("ErasedList::{m}"), &t, raw)?;
         if m == "get" {
